@@ -11,6 +11,8 @@ Categories
 A row with a 6th element is only valid where the dominating branch facts at the edge match that regex:
 removing the guard makes the row stop matching, and the edge becomes a violation.
 Signatures use $n for the n-th parameter, `var` for a multiply-assigned local; they carry no line numbers.
+Operands of commutative operations (+, *, &, |, ==, min, max, wrapping_add, ...) are printed in sorted order, so
+`a + b` and `b + a` have the same signature.
 """
 
 # bitflags!-generated helper bodies (module `_` inside mmap::xen): third-party macro output over u32 bit sets
@@ -61,9 +63,9 @@ EDGES = [
     (r"^io::(read|write)_volatile_raw_fd$", r"unwrap", r"^Result::unwrap\(TryInto::try_into\(libc::(read|write)\(", "I",
      "the syscall result is non-negative on this edge, so isize -> usize cannot fail",
      r"Ge\(libc::(read|write)\(.*\),0\)"),
-    (r"^<&\[u8\] as io::ReadVolatile>::read_volatile$", r"slice_op", r"^slice::split_at\(\$1,copy_slice_impl::copy_to_volatile_slice\(\$2,slice::as_ptr\(\$1\),Ord::min\(VolatileSlice::len\(\$2\),slice::len\(\$1\)\)\)\)$", "I",
+    (r"^<&\[u8\] as io::ReadVolatile>::read_volatile$", r"slice_op", r"^slice::split_at\(\$1,copy_slice_impl::copy_to_volatile_slice\(\$2,slice::as_ptr\(\$1\),cmp::min\(VolatileSlice::len\(\$2\),slice::len\(\$1\)\)\)\)$", "I",
      "split point = bytes copied = min(buf.len(), self.len()) <= self.len() (C13 R13.1)"),
-    (r"^<&mut \[u8\] as io::WriteVolatile>::write_volatile$", r"slice_op", r"^slice::split_at_mut\(mem::take\(\$1\),copy_slice_impl::copy_from_volatile_slice\(slice::as_mut_ptr\(\$1\),\$2,Ord::min\(VolatileSlice::len\(\$2\),slice::len\(\$1\)\)\)\)$", "I",
+    (r"^<&mut \[u8\] as io::WriteVolatile>::write_volatile$", r"slice_op", r"^slice::split_at_mut\(mem::take\(\$1\),copy_slice_impl::copy_from_volatile_slice\(slice::as_mut_ptr\(\$1\),\$2,cmp::min\(VolatileSlice::len\(\$2\),slice::len\(\$1\)\)\)\)$", "I",
      "split point = bytes copied = min(buf.len(), self.len()) <= self.len() (C13 R13.1)"),
     (r"^<std::vec::Vec<u8> as io::WriteVolatile>::write_volatile$", r"vec_op", r"^Vec::reserve\(\$1,VolatileSlice::len\(\$2\)\)$", "M",
      "host allocation, same behaviour as std's Write for Vec"),
@@ -71,9 +73,9 @@ EDGES = [
      "reserve(count) succeeded, so len + count <= capacity <= isize::MAX"),
     (r"^<std::vec::Vec<u8> as io::WriteVolatile>::write_volatile$", r"diverge", r"assert_failed!assert_eq", "I",
      "copy_from_volatile_slice returns its `total` argument (C04 R4.2)"),
-    (r"^<std::io::Cursor<.*> as io::(Read|Write)Volatile>::(read|write)_volatile$", r"index", r"^index::index(_mut)?\(.*,RangeFrom\{Ord::min\(Cursor::position\(\$1\),slice::len\(", "I",
+    (r"^<std::io::Cursor<.*> as io::(Read|Write)Volatile>::(read|write)_volatile$", r"index", r"^index::index(_mut)?\(.*,RangeFrom\{cmp::min\(Cursor::position\(\$1\),slice::len\(", "I",
      "slice start is min(position, len) <= len (C13 R13.3)"),
-    (r"^<std::io::Cursor<T> as io::ReadVolatile>::read_exact_volatile$", r"index", r"^index::index\(.*,RangeFrom\{Ord::min\(Cursor::position\(\$1\),slice::len\(", "I",
+    (r"^<std::io::Cursor<T> as io::ReadVolatile>::read_exact_volatile$", r"index", r"^index::index\(.*,RangeFrom\{cmp::min\(Cursor::position\(\$1\),slice::len\(", "I",
      "slice start is min(position, len) <= len (C13 R13.3)"),
     (r"^<std::io::Cursor<.*> as io::(Read|Write)Volatile>::(read|write)_volatile$", r"Overflow:Add", r"^Cursor::position\(\$1\),ok\(Try::branch\((Read|Write)Volatile::(read|write)_volatile\(", "I",
      "n <= len - min(position, len): position + n <= max(position, len); host-side stream state, not guest data"),
@@ -118,7 +120,7 @@ EDGES = [
     (r"^mmap::xen::MmapXenSlice::new_with$", r"DivisionByZero", r"/ xen::page_size\(\)$", "M", "page size from sysconf is non-zero"),
     (r"^mmap::xen::MmapXenSlice::new_with$", r"Overflow:Mul", r"^\(\$2 Div xen::page_size\(\)\),xen::page_size\(\)$", "I", "(x / p) * p <= x"),
     (r"^mmap::xen::MmapXenSlice::new_with$", r"Overflow:Sub", r"^\$2,\(\(\$2 Div xen::page_size\(\)\) Mul xen::page_size\(\)\)\.0$", "I", "x - (x / p) * p >= 0"),
-    (r"^mmap::xen::MmapXenSlice::new_with$", r"Overflow:Add", r"^\(\$2 Sub \(\(\$2 Div xen::page_size\(\)\) Mul xen::page_size\(\)\)\.0\)\.0,\$4$", "N",
+    (r"^mmap::xen::MmapXenSlice::new_with$", r"Overflow:Add", r"^\$4,\(\$2 Sub \(\(\$2 Div xen::page_size\(\)\) Mul xen::page_size\(\)\)\.0\)\.0$", "N",
      "in-page offset (< page) + len, len bounded by the range check of the accessor that owns the guard (C01)"),
     (r"^mmap::xen::MmapXenSlice::new_with$", r"Overflow:Add", r"^\$1\.guest_base\.0,\(\(\$2 Div xen::page_size\(\)\) Mul xen::page_size\(\)\)\.0$", "N",
      "guest_base + page_base <= guest_base + region size, which GuestRegionMmap::new checked (C10 R10.5)"),
@@ -137,20 +139,20 @@ EDGES = [
     (VM + r"VolatileSlice::copy_(to|from)$", r"DivisionByZero", r"^\$1\.size / mem::size_of<T>\(\)$", "I",
      "zero-sized T returned early", r"Ne\(mem::size_of<T>\(\),0\)"),
     (r"^<volatile_memory::VolatileSlice<'_, B> as bytes::Bytes<usize>>::(read_volatile_from|write_volatile_to)$", r"unwrap",
-     r"^Result::unwrap\(VolatileSlice::subslice\(ok\(Try::branch\(VolatileSlice::offset\(\$1,\$2\)\)\),0,Ord::min\(VolatileSlice::len\(ok\(Try::branch\(VolatileSlice::offset\(\$1,\$2\)\)\)\),\$4\)\)\)$", "I",
+     r"^Result::unwrap\(VolatileSlice::subslice\(ok\(Try::branch\(VolatileSlice::offset\(\$1,\$2\)\)\),0,cmp::min\(\$4,VolatileSlice::len\(ok\(Try::branch\(VolatileSlice::offset\(\$1,\$2\)\)\)\)\)\)\)$", "I",
      "subslice(0, min(len, count)) of the very slice whose len is taken: 0 + min(len, count) <= len"),
     (VM + r"VolatileArrayRef::to_slice$", r"Overflow:Mul", r"^\$1\.nelem,VolatileArrayRef::element_size\(\$1\)$", "N",
      "constructor invariant: get_array_ref checked nelem*size_of::<T>() <= isize::MAX (C01 R1.4); `new`/`with_bitmap` are unsafe"),
-    (VM + r"VolatileArrayRef::(copy_to_volatile_slice|ptr_guard|ptr_guard_mut)$", r"Overflow:Mul", r"^VolatileArrayRef::len\(\$1\),VolatileArrayRef::element_size\(\$1\)$", "N",
+    (VM + r"VolatileArrayRef::(copy_to_volatile_slice|ptr_guard|ptr_guard_mut)$", r"Overflow:Mul", r"^VolatileArrayRef::element_size\(\$1\),VolatileArrayRef::len\(\$1\)$", "N",
      "constructor invariant as for to_slice: nelem*size_of::<T>() <= isize::MAX"),
     (VM + r"VolatileArrayRef::ref_at$", r"diverge", r"^panic!assert$", "P", "documented: panics when index is out of range (program logic)"),
-    (VM + r"VolatileArrayRef::ref_at$", r"Overflow:Mul", r"^VolatileArrayRef::element_size\(\$1\),\$2$", "N",
+    (VM + r"VolatileArrayRef::ref_at$", r"Overflow:Mul", r"^\$2,VolatileArrayRef::element_size\(\$1\)$", "N",
      "index < nelem dominates and nelem*size_of::<T>() fits (constructor invariant)", r"Lt\(\$2,\$1\.nelem\)"),
     (VM + r"VolatileArrayRef::copy_from$", r"Overflow:Sub", r"^var,PtrGuardMut::as_ptr\(VolatileArrayRef::ptr_guard_mut\(\$1\)\)$", "I",
      "ptr starts at start and is only advanced"),
     (VM + r"VolatileArrayRef::copy_to$", r"offset_from", r"^const_ptr::offset_from\(var,var\)$", "I",
      "both pointers derive from the same guard; pointee size is non-zero on this path (zero-sized T returned early)", r"Ne\(mem::size_of<T>\(\),0\)"),
-    (VM + r"alignment$", r"Overflow:Add", r"^Not\(\$1\),1$", "I",
+    (VM + r"alignment$", r"Overflow:Add", r"^1,Not\(\$1\)$", "I",
      "overflows only for addr == 0: null is excluded by the accessors' unsafe-constructor contract (memory at addr must be valid)"),
     (VM + r"copy_slice_impl::copy_single$", r"diverge", r"^panic!\$crate::panic::unreachable_2021$", "P",
      "unreachable!(): callers pass only the constants 8/4/2/1 (C06 R6.4)"),
